@@ -130,8 +130,6 @@ func (r *RibEntry) updateNexthopsEnc() {
 		return
 	}
 
-	FibStrategyTable.ClearNextHopsEnc(r.Name)
-
 	// All routes including parents if needed
 	routes := append([]*Route{}, r.routes...)
 
@@ -160,10 +158,16 @@ func (r *RibEntry) updateNexthopsEnc() {
 		}
 	}
 
-	// Add "flattened" set of nexthops
+	// Replace the entry's nexthops by the "flattened" set in one step. The forwarding
+	// threads look the FIB up without the RIB mutex: clearing the entry and inserting
+	// the nexthops one by one would show them, on every refresh of this or of a shorter
+	// prefix, an entry that is missing (lookups fall through to the shorter prefix,
+	// even past a capture route) or only partly filled.
+	nexthops := make([]FibNextHopEntry, 0, len(minCostRoutes))
 	for nexthop, cost := range minCostRoutes {
-		FibStrategyTable.InsertNextHopEnc(r.Name, nexthop, cost)
+		nexthops = append(nexthops, FibNextHopEntry{Nexthop: nexthop, Cost: cost})
 	}
+	FibStrategyTable.SetNextHopsEnc(r.Name, nexthops)
 
 	// Trigger update for all children for inheritance
 	for child := range r.children {
